@@ -137,12 +137,12 @@ def gen_weight(rnd, vals):
 
 
 def gen_net(rnd, n_nodes=None, pool=None, max_types=3, depth=None, edge_density=None, allow=None, forbid=(),
-            alg_out_p=0.25, n_edges=None, funcs=FUNCS, same_type_bias=False):
+            alg_out_p=0.25, n_edges=None, funcs=FUNCS, same_type_bias=False, unique_types=False):
     """Random network spec.  `forbid`: risk features that must not occur (resampled away).
     Returns (spec, features, risk)."""
     for attempt in range(200):
         spec, feats, risk = _gen_net(rnd, n_nodes, pool, max_types, depth, edge_density, alg_out_p, n_edges, funcs,
-                                     same_type_bias)
+                                     same_type_bias, unique_types)
         if allow is not None and not allow(spec, feats, risk):
             continue
         if set(forbid) & set(risk):
@@ -151,10 +151,11 @@ def gen_net(rnd, n_nodes=None, pool=None, max_types=3, depth=None, edge_density=
     raise RuntimeError('generator could not satisfy the constraints')
 
 
-def _gen_net(rnd, n_nodes, pool, max_types, depth, edge_density, alg_out_p, n_edges, funcs, same_type_bias):
+def _gen_net(rnd, n_nodes, pool, max_types, depth, edge_density, alg_out_p, n_edges, funcs, same_type_bias,
+             unique_types=False):
     pool = pool or VAR_POOL
     vals = Vals(rnd)
-    n_types = rnd.randint(1, max_types)
+    n_types = rnd.randint(1, max_types) if not unique_types else (n_nodes or rnd.randint(1, max_types))
     ops = {}
     node_types = {}
     opn = 0
@@ -219,10 +220,12 @@ def _gen_net(rnd, n_nodes, pool, max_types, depth, edge_density, alg_out_p, n_ed
     labels = []
     node_of = {}
     tnames = list(node_types)
+    if unique_types:
+        n_nodes = len(tnames)
     for i in range(n_nodes):
         lab = rnd.choice(['n', 'p', 'node', 'a', 'b']) + str(i)
         labels.append(lab)
-        node_of[lab] = rnd.choice(tnames) if not same_type_bias else tnames[min(len(tnames) - 1, int(rnd.random() ** 2 * len(tnames)))]
+        node_of[lab] = tnames[i] if unique_types else rnd.choice(tnames) if not same_type_bias else tnames[min(len(tnames) - 1, int(rnd.random() ** 2 * len(tnames)))]
     # hierarchy
     depth = rnd.choice([0, 0, 1, 1, 2, 3]) if depth is None else depth
     rnd.shuffle(labels)
